@@ -371,9 +371,15 @@ func dischargeAll(obls []*Obligation, opts solveOpts, par int) {
 	// limit, now that nothing else competes for the processors - a loaded machine must not turn a slow proof into an
 	// alarm.  Functions that already failed several obligations are not revisited, and at most 8 obligations are.
 	if !opts.all {
+		refuted := map[string]int{} // obligations of the function with a counter-model: the function is really broken
+		for _, o := range obls {
+			if o.Status == "failed" && !o.MustFail {
+				refuted[o.Func]++
+			}
+		}
 		tried := 0
 		for _, o := range obls {
-			if o.Status != "unknown" || o.MustFail || o.KnownOpen || failedIn[o.Func] >= 4 || tried >= 8 {
+			if o.Status != "unknown" || o.MustFail || o.KnownOpen || refuted[o.Func] >= 2 || tried >= 8 {
 				continue
 			}
 			tried++
